@@ -207,8 +207,10 @@ def validateInsertRows (t : Table) (skipDup : Bool) : List Row → List Row → 
     | .error e => .error e
     | .ok () => validateInsertRows t skipDup (batch ++ [r]) rs
 
-/-- `ConstraintValidator::validate_row` (UPDATE): the new row against the table as it is,
-excluding the row itself by comparing with its own old key -/
+/-- `ConstraintValidator::validate_row` (UPDATE) preceded by the column-type check of the new row
+(assigned values are coerced like INSERT's `coerce_value`; `Table::normalize_row` refuses a value of
+the wrong storage type *before* the first write — since the repair): the new row against the table
+as it is, excluding the row itself by comparing with its own old key -/
 def validateUpdateRow (t : Table) (old new : Row) : Except DErr Unit :=
   if !new.all coerceOk then .error .type
   else if !t.checkNotNull new then .error .constraint
